@@ -154,6 +154,33 @@ def single_lattice(rng, tier):
                                        corr_mixing='MIT', corr_friction='NOV',
                                        corr_flowsplit='MIT'),
         gap_model='flow', power_order=2, ncell=3)
+    # option combinations (each option is met at least once together with
+    # regions of both kinds, several ducts and both outer boundaries)
+    t = add_regions(bundle_type(2, nd=2, bypass_gap_flow_fraction=0.06), L,
+                    lower=dict(model='6node', vf_coolant=0.3),
+                    upper=dict(model='simple', vf_coolant=0.4,
+                               convection_factor=0.8))
+    one('opt-dd-regions-adiabatic-gravity', t, gap_model='none',
+        setup={'include_gravity_head_loss': True, 'param_update_tol': 0.01})
+    one('opt-se2geo', bundle_type(3), gap_model='flow',
+        setup={'se2geo': True})
+    one('opt-3duct-convapprox', bundle_type(2, nd=3), gap_model='flow',
+        flow=flow_for(bundle_type(2), 0.012),
+        setup={'conv_approx': True, 'conv_approx_dz_cutoff': 0.01})
+    one('opt-uctd-grid-regions', add_regions(
+        bundle_type(3, corr_mixing='UCTD', corr_friction='UCTD',
+                    corr_flowsplit='UCTD',
+                    SpacerGrid={'corr': 'REH', 'axial_positions': [0.25, 0.4],
+                                'solidity': 0.2}), L,
+        upper=dict(model='6node', vf_coolant=0.35, convection_factor=0.7)),
+        gap_model='flow')
+    one('opt-outlet-temp-bc', bundle_type(3), gap_model='flow')
+    out[-1][1]['assign'] = [[a[0], a[1], a[2], {'OUTLET_TEMP': 770.0}]
+                            for a in out[-1][1]['assign']]
+    one('opt-delta-temp-bc-noflowgap', bundle_type(2, nd=2),
+        gap_model='no_flow')
+    out[-1][1]['assign'] = [[a[0], a[1], a[2], {'DELTA_TEMP': 130.0}]
+                            for a in out[-1][1]['assign']]
     if tier == 'thorough':
         one('rod4-adiabatic', bundle_type(4), power_order=2, ncell=3)
         one('rod5-dd', bundle_type(5, nd=2), gap_model='flow')
